@@ -24,6 +24,7 @@ def dispatch (line : String) : String :=
   | "c13p" :: r => C02.handleParse r
   | "c13e" :: r => C13.handle r
   | "c13q" :: r => C13.handleParams r
+  | "c13b" :: r => C13.handlePart r
   | "c03" :: r => C03.handle r
   | "c06" :: r => C06.handleSem r
   | "c07" :: r => C06.handleIds r
